@@ -49,6 +49,8 @@ def tasks(tier):
         # more than one point without cells (several control points / unused nodes)
         ("partition 2d, two cell-less points", "run_partition", dict(dim=2, orphan="two")),
         ("partition 3d, two cell-less points", "run_partition", dict(dim=3, orphan="two")),
+        ("loadcases 2d, two cell-less points", "run_loadcases", dict(dim=2, orphan="two")),
+        ("loadcases 3d, two cell-less points", "run_loadcases", dict(dim=3, orphan="two")),
         # where the set of points without cells comes from, and the dual meshes mixed containers are built on
         ("points without cells", "run_discrete_geometry", {}),
         ("dual mesh", "run_dual_mesh", {}),
@@ -69,7 +71,7 @@ class LatticeMesh:
         else:
             pts.append(far)
         if orphan == "two":
-            pts.append([Fraction(1, 4)] * dim)  # a second point without cells, on none of the lattice planes
+            pts.append([Fraction(-(k + 1), 4) for k in range(dim)])  # a second point without cells, on none of the lattice planes; it makes the smallest coordinate differ from axis to axis
         self.coords = pts
         self.points = npmodel.array(pts, dtype=npmodel.DType("float"))
         self.npoints = len(pts)
@@ -320,8 +322,9 @@ def run_loadcases(col, dim, orphan="last"):
     n0 = mesh.npoints * dim
     U = fields[0].attrs["values"]
     uflat = npmodel.to_obj(U).reshape(-1).tolist() + npmodel.to_obj(fields[1].attrs["values"]).reshape(-1).tolist()
-    lo = Fraction(0)  # min / max coordinate per axis (the point without cells sits at (2, 3, 4)): used when left/right are not given
-    hi = [Fraction(2 + k) for k in range(dim)]
+    # min / max coordinate per axis, used when left / right are not given: both differ from axis to axis in the variant with two cell-less points
+    lo = [min(c[k] for c in mesh.coords) for k in range(dim)]
+    hi = [max(c[k] for c in mesh.coords) for k in range(dim)]
     count = 0
     mod = "felupe.dof._loadcase:"
     miss = [dim * o + i for o in mesh.orphans for i in range(dim)] + [n0 + o for o in mesh.orphans]
@@ -372,7 +375,7 @@ def run_loadcases(col, dim, orphan="last"):
             for symflags in symsets + [True, False]:
                 for given in (False, True):
                     kw = dict(move=move, axis=axis, clamped=clamped, sym=symflags)
-                    left, right = lo, hi[axis]
+                    left, right = lo[axis], hi[axis]
                     if given:
                         kw.update(left=Fraction(1, 2), right=1)
                         left, right = Fraction(1, 2), Fraction(1)
@@ -408,7 +411,7 @@ def run_loadcases(col, dim, orphan="last"):
                 sym_planes(pres, sf)
                 for i_, (ax, mv) in enumerate(zip(axes, (m0, m1))):
                     if not sf[ax]:
-                        for p in face(ax, lo):
+                        for p in face(ax, lo[ax]):
                             pres[dim * p + ax] = -mv
                 for i_, (ax, mv, cl) in enumerate(zip(axes, (m0, m1), clampes)):
                     if cl:
@@ -417,7 +420,7 @@ def run_loadcases(col, dim, orphan="last"):
                                 if i != ax:
                                     pres[dim * p + i] = ZERO
                         if not sf[ax]:
-                            for p in face(ax, lo):
+                            for p in face(ax, lo[ax]):
                                 for i in range(dim):
                                     if i != ax:
                                         pres[dim * p + i] = ZERO
@@ -431,7 +434,7 @@ def run_loadcases(col, dim, orphan="last"):
         for symflag in (True, False):
             for given in (False, True):
                 kw = dict(moves=(s0, s1, s2), axes=axes, sym=symflag)
-                bottom, top = lo, hi[axes[1]]
+                bottom, top = lo[axes[1]], hi[axes[1]]
                 if given:
                     kw.update(bottom=0, top=1)
                     bottom, top = Fraction(0), Fraction(1)
